@@ -79,6 +79,7 @@ type Exec struct {
 	samples      []SampleOut
 	nObl         int
 	nDischarged  int
+	nTrivial     int
 	blocked      int
 	initStored   map[*ssa.Global]bool
 	initDone     map[*ssa.Global]bool
@@ -271,6 +272,10 @@ func (e *Exec) oblige(cond Term, kind, msg string) { e.obligeX(cond, kind, msg, 
 
 func (e *Exec) obligeX(cond Term, kind, msg string, assumeAfter bool) {
 	if cond.Const && cond.B {
+		if kind == "assert" {
+			e.nTrivial++
+			e.oblMsgs[kind+": "+msg] = true
+		}
 		return
 	}
 	e.nObl++
@@ -553,6 +558,21 @@ func (e *Exec) prepCall(fr *frame, c *ssa.CallCommon) (func([]Value) Value, []Va
 		recv := e.val(fr, c.Value).(VIface)
 		if recv.Typ == nil {
 			e.oblige(BoolC(false), "panic", "nil interface method call "+c.Method.Name())
+		}
+		if recv.Typ == errType {
+			ve := recv.Val.(VErr)
+			switch c.Method.Name() {
+			case "Error":
+				return func(a []Value) Value { return VStr{"<" + ve.ID + ">"} }, nil
+			case "Unwrap":
+				return func(a []Value) Value {
+					if len(ve.Causes) > 0 {
+						return ve.Causes[0]
+					}
+					return VIface{}
+				}, nil
+			}
+			e.fail("method %s on an opaque error", c.Method.Name())
 		}
 		ms := e.prog.MethodSets.MethodSet(recv.Typ)
 		sel := ms.Lookup(c.Method.Pkg(), c.Method.Name())
@@ -1078,6 +1098,8 @@ func (e *Exec) deepEq(x, y Value) Term {
 		return r
 	case VIface:
 		return e.ifaceEq(a, y.(VIface))
+	case VErr:
+		return BoolC(a.ID == y.(VErr).ID)
 	}
 	e.fail("deepEq %T", x)
 	return Term{}
